@@ -291,6 +291,10 @@ func (f *ObjectLayoutFixer) FixLayout(index int, value octosql.Value) octosql.Va
 func (f *ObjectLayoutFixer) fixLayout(mapping LayoutMapping, value octosql.Value) octosql.Value {
 	switch value.TypeID {
 	case octosql.TypeIDStruct:
+		if mapping.Struct == nil {
+			// There's no layout to conform to (i.e. the target type is Any).
+			return value
+		}
 		out := make([]octosql.Value, len(mapping.Struct.SourceIndex))
 		for i := range out {
 			if mapping.Struct.SourceIndex[i] != -1 {
@@ -299,12 +303,18 @@ func (f *ObjectLayoutFixer) fixLayout(mapping LayoutMapping, value octosql.Value
 		}
 		return octosql.NewStruct(out)
 	case octosql.TypeIDList:
+		if mapping.List == nil {
+			return value
+		}
 		out := make([]octosql.Value, len(value.List))
 		for i := range out {
 			out[i] = f.fixLayout(mapping.List.ElementMapping, value.List[i])
 		}
 		return octosql.NewList(out)
 	case octosql.TypeIDTuple:
+		if mapping.Tuple == nil {
+			return value
+		}
 		out := make([]octosql.Value, len(value.Tuple))
 		for i := range out {
 			out[i] = f.fixLayout(mapping.Tuple.ElementMapping[i], value.Tuple[i])
